@@ -1519,11 +1519,14 @@ def shard(seed, kind, n, stratum=None, anticipated=False):
     stats = out.stats
     agg = stats.extra.setdefault("measured", {})
     mx = {}
+    case_dtype = ["float32"]
 
     def record(meas):
+        # largest |a-b| / (scale + S); the assertion is "<= tol"
+        tag = "max_err_freshbn_" if meas.get("fresh_bn_layers") else "max_err_"
         for k in ("rt_x", "rt_z", "density", "fp_z", "fp_q", "ifp_q"):
             if k in meas:
-                kk = "max_err_" + k
+                kk = tag + case_dtype[0] + "_" + k
                 mx[kk] = max(mx.get(kk, 0.0), meas[k])
         agg["assertions"] = agg.get("assertions", 0) + meas.get(
             "n_assert", 0)
@@ -1533,10 +1536,10 @@ def shard(seed, kind, n, stratum=None, anticipated=False):
             if gs != "ok":
                 stats.inconclusive += 1
             else:
-                mx["max_grid_dev"] = max(
-                    mx.get("max_grid_dev", 0.0),
-                    abs(meas["grid_integral"] - 1.0),
-                )
+                kk = "max_grid_dev_lars" if "lars_norm" in meas else (
+                    "max_grid_dev")
+                mx[kk] = max(mx.get(kk, 0.0),
+                             abs(meas["grid_integral"] - 1.0))
 
     if anticipated:
         for case in ANTICIPATED:
@@ -1544,6 +1547,7 @@ def shard(seed, kind, n, stratum=None, anticipated=False):
             stats.case(_brief(case), nontrivial=nt,
                        classes=cl + ["anticipated"])
             try:
+                case_dtype[0] = case["dtype"]
                 record(check_case(case))
             except Violation as v:
                 out.add(v)
@@ -1552,6 +1556,7 @@ def shard(seed, kind, n, stratum=None, anticipated=False):
 
     def body(case):
         cl, nt = classify(case)
+        case_dtype[0] = case["dtype"]
         try:
             meas = check_case(case)
         except Violation as v:
